@@ -63,72 +63,89 @@ func runC16(c *Ctx) {
 			}
 			key := "write@" + funcName(fn)
 			arg := ci.Call.Args[0]
-			ld, ok := arg.(*ssa.UnOp)
-			if !ok || ld.Op != token.MUL {
+			var ptrs []ssa.Value
+			if prm, isPrm := arg.(*ssa.Parameter); isPrm && isNewHelper(fn) && fn.Parent() == nil {
+				// a NEW write helper handed the frame bytes: what its callers dereference
+				_ = prm
+				for _, r := range tr.origins(arg) {
+					l2, ok := r.(*ssa.UnOp)
+					if !ok || l2.Op != token.MUL {
+						ptrs = nil
+						break
+					}
+					ptrs = append(ptrs, l2.X)
+				}
+			} else if ld, ok := arg.(*ssa.UnOp); ok && ld.Op == token.MUL {
+				ptrs = []ssa.Value{ld.X}
+			}
+			if len(ptrs) == 0 {
 				c.fail(key, instrPos(in), "writes %s, not a whole framed buffer", exprStr(arg))
 				return
 			}
 			good := true
 			var why []string
 			nRoots := 0
-			for _, r := range tr.origins(ld.X) {
-				if isNilConst(r) {
-					continue
-				}
-				nRoots++
-				src := r
-				if ex, ok := r.(*ssa.Extract); ok {
-					src = ex.Tuple
-				}
-				cl, ok := src.(*ssa.Call)
-				if !ok {
-					good = false
-					why = append(why, exprStr(r))
-					continue
-				}
-				cn := callName(cl)
-				switch {
-				case framers[cn]:
-				case cn == relTransport+".copyMsg":
-					// datagram branch only: the write's connection must be the pipelined conn with isTcp == false on this path
-					okDatagram := false
-					if phi, ok := ld.X.(*ssa.Phi); ok {
-						for i, e := range phi.Edges {
-							if e == ssa.Value(cl) {
-								for _, g := range guardsOf(phi.Block().Preds[i]) {
-									if v, truth := g.asBool(); !truth {
-										if k, _ := loadedField(v); k == T+"TraditionalDnsConn.isTcp" {
-											okDatagram = true
+			for _, pv := range ptrs {
+				ld := &ssa.UnOp{Op: token.MUL, X: pv}
+				for _, r := range tr.origins(ld.X) {
+					if isNilConst(r) {
+						continue
+					}
+					nRoots++
+					src := r
+					if ex, ok := r.(*ssa.Extract); ok {
+						src = ex.Tuple
+					}
+					cl, ok := src.(*ssa.Call)
+					if !ok {
+						good = false
+						why = append(why, exprStr(r))
+						continue
+					}
+					cn := callName(cl)
+					switch {
+					case framers[cn]:
+					case cn == relTransport+".copyMsg":
+						// datagram branch only: the write's connection must be the pipelined conn with isTcp == false on this path
+						okDatagram := false
+						if phi, ok := ld.X.(*ssa.Phi); ok {
+							for i, e := range phi.Edges {
+								if e == ssa.Value(cl) {
+									for _, g := range guardsOf(phi.Block().Preds[i]) {
+										if v, truth := g.asBool(); !truth {
+											if k, _ := loadedField(v); k == T+"TraditionalDnsConn.isTcp" {
+												okDatagram = true
+											}
 										}
 									}
-								}
-								pred := phi.Block().Preds[i]
-								if iff, ok := terminator(pred).(*ssa.If); ok {
-									if v, truth := (guard{Cond: iff.Cond, Truth: pred.Succs[0] == phi.Block()}).asBool(); !truth {
-										if k, _ := loadedField(v); k == T+"TraditionalDnsConn.isTcp" {
-											okDatagram = true
+									pred := phi.Block().Preds[i]
+									if iff, ok := terminator(pred).(*ssa.If); ok {
+										if v, truth := (guard{Cond: iff.Cond, Truth: pred.Succs[0] == phi.Block()}).asBool(); !truth {
+											if k, _ := loadedField(v); k == T+"TraditionalDnsConn.isTcp" {
+												okDatagram = true
+											}
 										}
 									}
 								}
 							}
 						}
-					}
-					if !okDatagram {
+						if !okDatagram {
+							good = false
+							why = append(why, "unframed copyMsg outside the datagram branch")
+						}
+					case cn == poolGet && fn.Name() == "WriteRawMsgToTCP":
+						// the constructor's own buffer (checked by W2)
+					case cn == "invoke:("+relServer+".Handler).Handle":
+						// reply from the handler: the packer passed must be the length-prefixing one
+						pk := cl.Call.Args[len(cl.Call.Args)-1]
+						if fnv, ok := pk.(*ssa.Function); !ok || fnFullName(fnv) != relPool+".PackTCPBuffer" {
+							good = false
+							why = append(why, "handler invoked with packer "+exprStr(pk)+" (stream servers must pass pool.PackTCPBuffer)")
+						}
+					default:
 						good = false
-						why = append(why, "unframed copyMsg outside the datagram branch")
+						why = append(why, cn)
 					}
-				case cn == poolGet && fn.Name() == "WriteRawMsgToTCP":
-					// the constructor's own buffer (checked by W2)
-				case cn == "invoke:("+relServer+".Handler).Handle":
-					// reply from the handler: the packer passed must be the length-prefixing one
-					pk := cl.Call.Args[len(cl.Call.Args)-1]
-					if fnv, ok := pk.(*ssa.Function); !ok || fnFullName(fnv) != relPool+".PackTCPBuffer" {
-						good = false
-						why = append(why, "handler invoked with packer "+exprStr(pk)+" (stream servers must pass pool.PackTCPBuffer)")
-					}
-				default:
-					good = false
-					why = append(why, cn)
 				}
 			}
 			if nRoots == 0 {
@@ -696,6 +713,7 @@ func runC16(c *Ctx) {
 
 	// ---------------------------------------------------------------- R5
 	c.rule("R5", "a reply Write on a shared server connection cannot end half-done and be followed by another frame: no write deadline is armed unless a failed Write closes the connection", 2)
+	helperConnTypes := map[*ssa.Call][]string{}
 	for _, f := range p.funcsIn(relServer) {
 		fn := f
 		var writes []*ssa.Call
@@ -709,6 +727,39 @@ func runC16(c *Ctx) {
 			case "Write":
 				if strings.HasSuffix(typeKey(ci.Call.Value.Type()), "net.Conn") || strings.Contains(ci.Call.Value.Type().String(), "quic") {
 					writes = append(writes, ci)
+				} else if prm, isPrm := ci.Call.Value.(*ssa.Parameter); isPrm && isNewHelper(fn) && fn.Parent() == nil {
+					// a NEW write helper of the servers: what it writes to is what its callers hand it
+					pi := -1
+					for i, q := range fn.Params {
+						if q == prm {
+							pi = i
+						}
+					}
+					sites, _ := callSitesOf(fn)
+					for _, st := range sites {
+						args := st.(ssa.CallInstruction).Common().Args
+						if pi >= 0 && pi < len(args) {
+							a := args[pi]
+							for {
+								if mi, ok := a.(*ssa.MakeInterface); ok {
+									a = mi.X
+									continue
+								}
+								if ch, ok := a.(*ssa.ChangeInterface); ok {
+									a = ch.X
+									continue
+								}
+								break
+							}
+							ts := a.Type().String()
+							if strings.HasSuffix(typeKey(a.Type()), "net.Conn") || strings.Contains(ts, "quic") {
+								helperConnTypes[ci] = append(helperConnTypes[ci], ts)
+							}
+						}
+					}
+					if len(helperConnTypes[ci]) > 0 {
+						writes = append(writes, ci)
+					}
 				}
 			case "SetWriteDeadline", "SetDeadline":
 				ddl = in
@@ -718,8 +769,11 @@ func runC16(c *Ctx) {
 			continue
 		}
 		// a write deadline armed anywhere in the server package counts (helpers included)
-		wt := writes[0].Call.Value.Type().String()
-		if ddl != nil && ddl.(*ssa.Call).Call.Value.Type().String() != wt {
+		wts := map[string]bool{writes[0].Call.Value.Type().String(): true}
+		for _, t := range helperConnTypes[writes[0]] {
+			wts[t] = true
+		}
+		if ddl != nil && !wts[ddl.(*ssa.Call).Call.Value.Type().String()] {
 			ddl = nil
 		}
 		for _, g := range p.funcsIn(relServer) {
@@ -729,7 +783,7 @@ func runC16(c *Ctx) {
 			eachInstr(g, func(in ssa.Instruction) {
 				if ci, ok := in.(*ssa.Call); ok && ci.Call.IsInvoke() {
 					// on the same kind of connection object as the one written to
-					if n := ci.Call.Method.Name(); (n == "SetWriteDeadline" || n == "SetDeadline") && ci.Call.Value.Type().String() == wt {
+					if n := ci.Call.Method.Name(); (n == "SetWriteDeadline" || n == "SetDeadline") && wts[ci.Call.Value.Type().String()] {
 						ddl = in
 					}
 				}
@@ -737,6 +791,12 @@ func runC16(c *Ctx) {
 		}
 		c.see(fn)
 		key := "no-partial-frame@" + funcName(fn)
+		if len(helperConnTypes[writes[0]]) > 1 && ddl == nil {
+			// one write helper shared by several servers stands for each of them
+			for i := 1; i < len(helperConnTypes[writes[0]]); i++ {
+				c.ok(fmt.Sprintf("%s#%d", key, i), instrPos(writes[0]), "shared stream write helper, no write deadline is armed")
+			}
+		}
 		if ddl == nil {
 			c.ok(key, instrPos(writes[0]), "%d stream Write(s), no write deadline is armed: a Write returns only when the whole frame is written or the connection is broken", len(writes))
 			continue
